@@ -441,6 +441,12 @@ func (t *ValueSet) result(r Result) Result {
 	// any pointers. We know this to be true already since we analyzed the
 	// function earlier.
 	if !t.lifted() {
+		// r is a copy but its out slice may be shared with the cached
+		// result of a run-once function: never modify it in place.
+		out := make([]reflect.Value, len(r.out))
+		copy(out, r.out)
+		r.out = out
+
 		for i := uint8(0); i < t.structPointers; i++ {
 			r.out[0] = r.out[0].Elem()
 		}
